@@ -414,7 +414,8 @@ def generate(seed, prop, tier):
             e_["enc_keys"] = r.pick([[8], [9, 10], [11]])
     if r.chance(0.4):
         # one entity of the process uses a longer RSA key than the fixtures' usual 1024 bits
-        r.pick(ents)["key"] = r.pick([12, 13])
+        # (k14: a certificate whose base64 body needs no padding and ends in letters that also occur in the PEM armour)
+        r.pick(ents)["key"] = r.pick([12, 13, 14, 14])
     mode = "seq" if seed % 2 == 0 else "threads"
     n_steps = r.randrange(3, 13 if tier == "quick" else 17)
     evs = []
